@@ -131,6 +131,7 @@ class Spec(unit.UnitSpec):
             else:
                 fill = bytes(rng.getrandbits(8) for _ in range(nb))
             ops = [g.new_line(), f"side fill {fill.hex()}"]
+            fillb = bytearray(fill)
             total = g.n * g.R
             maxlim = 3000 * g.R
             for _ in range(rng.randrange(1, 12)):
@@ -144,9 +145,44 @@ class Spec(unit.UnitSpec):
                     a = min(a, 64 * sc.CHUNK - 1)
                     lim = rng.choice([1, 2, g.R - 1, g.R, g.R + 1, 8 * g.R, 64 * g.R, total, total + g.R,
                                       rng.randrange(1, total + 2), rng.randrange(1, maxlim), sc.CHUNK + 5 if g.lr >= 12 else 77])
-                    if rng.random() < 0.01:
+                    if rng.random() < 0.3:
+                        # a handful of regions: the whole search range often sits inside ONE metadata byte
+                        # (added after seeded change C22: the in-byte range mask was never exercised)
+                        lim = rng.randrange(1, 8) * g.R + rng.randrange(0, g.R)
+                    if rng.random() < 0.01 and op in ("find_prev", "find_next"):
+                        # limit 0 only through the public entry (its debug_assert!(limit > 0)); the private
+                        # _fast/_simple functions are never reached with limit 0 and are not modelled there
                         lim = 0
                     lim = min(lim, maxlim)
+                    if g.lb < 3 and rng.random() < 0.35 and g.n * g.W >= 16:
+                        # targeted: origin and limit chosen so that the searched bit range lies strictly inside
+                        # one metadata byte (start bit > 0, end bit < 8) — the BitsInByte-only path
+                        per = 8 // g.W                                  # regions per metadata byte
+                        r_byte0 = (-(g.field_pos(g.d0) // g.W)) % per      # first region that starts a byte
+                        nbytes_in = (g.n - r_byte0) // per
+                        if per >= 4 and nbytes_in >= 1:
+                            byte = rng.randrange(0, nbytes_in)
+                            idx = rng.randrange(1, per - 1) if per > 2 else 1   # origin's field index in the byte
+                            k = rng.randrange(1, idx + 1)                # regions searched (stays in the byte)
+                            a = g.d0 + (r_byte0 + byte * per + idx) * g.R + rng.randrange(0, g.R)
+                            lim = (a - g.d0) % g.R + (k - 1) * g.R + 1 + rng.randrange(0, g.R) if k > 1 else (a - g.d0) % g.R + 1
+                            lim = max(1, lim)
+                            if rng.random() < 0.7:
+                                # own field zero (no quick return), a non-zero field ABOVE the origin in the same
+                                # byte (must never be reported), random fields below it
+                                def put(r, v):
+                                    p = g.region_pos(r)
+                                    if 0 <= p and (p >> 3) < len(fillb):
+                                        fillb[p >> 3] = (fillb[p >> 3] & ~(((1 << g.W) - 1) << (p & 7)) & 0xff) | (v << (p & 7))
+                                r_own = r_byte0 + byte * per + idx
+                                put(r_own, 0)
+                                for j in range(1, per - idx):
+                                    if rng.random() < 0.6:
+                                        put(r_own + j, rng.randrange(1, 1 << g.W))
+                                for j in range(1, idx + 1):
+                                    if rng.random() < 0.3:
+                                        put(r_own - j, rng.randrange(1, 1 << g.W))
+                                ops[1] = f"side fill {bytes(fillb).hex()}"
                     ops.append(f"side {op} {a:#x} {lim:#x}")
                 else:
                     op = rng.choice(("scan", "scan_fast", "scan_fast", "scan_simple") if g.lb == 0 else ("scan", "scan_simple"))
